@@ -4,6 +4,7 @@ objects, id types, argument signatures); oracles: graphql-core validation / exec
 prediction model over the TypeSpec, serialize / deserialize of the real code."""
 from __future__ import annotations
 
+import itertools
 import json
 import re
 from typing import Any, Dict, List, Mapping, Optional, Tuple
@@ -423,6 +424,7 @@ class ConvIn:
     x: int = field(default=3, metadata=conversion(deserialization=_int_of))
     y: Annotated[int, schema(min=5)] = 1   # a default which is not a valid input
 def in_conv_default(arg: ConvIn) -> int: CALLS.append(("in_conv_default", arg)); return arg.x + arg.y
+def a_opt_req(a: Optional[int], b: Optional[str]) -> str: CALLS.append(("a_opt_req", a, b)); return f"{a}/{b}"
 def a_two(a: int, b: str = "x") -> str: CALLS.append(("a_two", a, b)); return b * a
 def a_constrained(a: Annotated[int, schema(min=0, max=3)]) -> int: CALLS.append(("a_constrained", a)); return a
 
@@ -540,7 +542,7 @@ def world_checks(st: infra.Stats):
     def viol(kind, what, **sig):
         st.violation({"label": "world", "signature": dict({"kind": kind}, **sig), "what": what[:500]})
 
-    ops = ["a_required", "a_default", "a_none", "a_opt_default", "a_opt_list", "a_wide_default", "a_info_first", "a_info_mid", "a_unser", "a_obj_default", "a_list_default", "a_undefined", "a_enum_default", "a_str_enum", "a_conv_default", "in_conv_default", "a_two", "a_constrained", "in_list_default", "in_numeric_defaults", "by_id"]
+    ops = ["a_required", "a_default", "a_none", "a_opt_default", "a_opt_list", "a_wide_default", "a_info_first", "a_info_mid", "a_unser", "a_obj_default", "a_list_default", "a_undefined", "a_enum_default", "a_str_enum", "a_conv_default", "in_conv_default", "a_two", "a_constrained", "in_list_default", "in_numeric_defaults", "by_id", "a_opt_req"]
     built = {}
     for name in ops:
         st.case("world", "signature", name)
@@ -575,6 +577,8 @@ def world_checks(st: infra.Stats):
         "in_list_default": {"arg": "WithListDefaultInput!"},
         "in_numeric_defaults": {"arg": "RingInput!"},
         "by_id": {"id": "ID!"},
+        # Optional parameters without default: nullable arguments, None when omitted
+        "a_opt_req": {"a": "Int", "b": "String"},
     }
     for name, s in built.items():
         qn = to_camel_case(name)
@@ -636,6 +640,11 @@ def world_checks(st: infra.Stats):
         ("in_list_default", "{ inListDefault(arg: {items: [1], n: 2}) }", {"inListDefault": 1}, ("in_list_default", m.WithListDefault([1], 2))),
         ("by_id", '{ byId(id: "12345678-1234-5678-1234-567812345678") }', {"byId": str(m.THE_ID)}, ("by_id", m.THE_ID)),
         ("by_id", '{ byId(id: "not-a-uuid") }', None, None),
+        ("a_opt_req", "{ aOptReq }", {"aOptReq": "None/None"}, ("a_opt_req", None, None)),
+        ("a_opt_req", "{ aOptReq(a: 1) }", {"aOptReq": "1/None"}, ("a_opt_req", 1, None)),
+        ("a_opt_req", '{ aOptReq(b: "s") }', {"aOptReq": "None/s"}, ("a_opt_req", None, "s")),
+        ("a_opt_req", '{ aOptReq(a: 2, b: "t") }', {"aOptReq": "2/t"}, ("a_opt_req", 2, "t")),
+        ("a_opt_req", "{ aOptReq(a: null) }", {"aOptReq": "None/None"}, ("a_opt_req", None, None)),
     ]
     for name, query, exp_data, exp_call in runs:
         if name not in built:
@@ -648,6 +657,31 @@ def world_checks(st: infra.Stats):
                 viol("world_invalid_argument", f"{query}: errors={r.errors} calls={m.CALLS}", op=name)
         elif r.errors or r.data != exp_data or m.CALLS != [exp_call]:
             viol("world_execution", f"{query}: data={r.data} errors={r.errors} calls={m.CALLS}; expected {exp_data} / {exp_call}", op=name)
+    # executions do not depend on the executions before them: every ordered pair of the queries of one operation on one
+    # schema (the second one checked), and both in one document under two aliases
+    by_op: Dict[str, list] = {}
+    for name, query, exp_data, exp_call in runs:
+        if name in built:
+            by_op.setdefault(name, []).append((query, exp_data, exp_call))
+    for name, qs in by_op.items():
+        for (q1, d1, c1), (q2, d2, c2) in itertools.permutations(qs, 2):
+            st.case("world", "run_pair", q1, q2)
+            graphql.graphql_sync(built[name], q1)
+            del m.CALLS[:]
+            r = graphql.graphql_sync(built[name], q2)
+            if d2 is None:
+                if not r.errors or m.CALLS:
+                    viol("world_invalid_argument", f"{q2} after {q1}: errors={r.errors} calls={m.CALLS}", op=name, history=True)
+            elif r.errors or r.data != d2 or m.CALLS != [c2]:
+                viol("world_execution", f"{q2} after {q1}: data={r.data} errors={r.errors} calls={m.CALLS}; expected {d2} / {c2}", op=name, history=True)
+            if d1 is not None and d2 is not None:
+                st.case("world", "run_aliases", q1, q2)
+                doc = "{ first: " + q1.strip()[1:-1].strip() + " second: " + q2.strip()[1:-1].strip() + " }"
+                key1, key2 = next(iter(d1)), next(iter(d2))
+                del m.CALLS[:]
+                r = graphql.graphql_sync(built[name], doc)
+                if r.errors or r.data != {"first": d1[key1], "second": d2[key2]} or m.CALLS != [c1, c2]:
+                    viol("world_execution", f"{doc}: data={r.data} errors={r.errors} calls={m.CALLS}; expected {d1[key1]} / {d2[key2]}", op=name, history=True)
     # interfaces / unions / ids
     try:
         s = graphql_schema(query=[m.shapes, m.any_shape, m.with_id, m.failing, Query(m.handled_q, error_handler=None)], id_types={m.uuid.UUID}, types=[m.Circle, m.Square])
